@@ -5,6 +5,8 @@ import os, sys, json, shutil, subprocess, re
 src = sys.argv[1].rstrip('/')
 props = sys.argv[2].split(',')
 mid = os.path.basename(src)
+if len(sys.argv) > 3:
+    mid = sys.argv[3] + mid
 dst = os.path.join('/verif/seeded', mid)
 os.makedirs(dst, exist_ok=True)
 patch = os.path.join(src, 'patch.rebased.diff') if os.path.exists(os.path.join(src, 'patch.rebased.diff')) else os.path.join(src, 'patch.diff')
@@ -37,6 +39,7 @@ for m in re.finditer(r'^\S+ (C\d+) exit=(\d+)', r.stdout, re.M):
 sigs = re.findall(r'signature: (.*)', r.stdout)
 out = {
     'id': mid,
+    'first_run_before_strengthening': os.environ.get('FIRST_RUN', ''),
     'property': meta.get('property', mid.split('-')[0]),
     'summary': meta.get('summary', ''),
     'needs_to_manifest': meta.get('needs', ''),
